@@ -104,6 +104,11 @@ def run_case(case):
                 else:
                     rows = list(node.engine.execute(node))
             except Exception as exc:  # noqa: BLE001
+                if node is not rel and "will not preserve row order" in str(exc):
+                    # an inner node that is only valid in its context (re-conforming it on its own
+                    # trips the row-order policy); not a metadata matter
+                    c["inner_nodes_not_executable_alone"] = c.get("inner_nodes_not_executable_alone", 0) + 1
+                    continue
                 out["violations"].append({"kind": "node_not_executable", "detail": f"{label}: node {short(node)}: {exc_str(exc)}"})
                 continue
             check_node(node, rows, out, label)
